@@ -150,7 +150,7 @@ namespace
     std::vector<std::string> lines; { std::istringstream is(w); std::string l; while(std::getline(is, l)) lines.push_back(l); }
     auto trimmed = [&](size_t i) { size_t a = lines[i].find_first_not_of(' '); return a == std::string::npos ? std::string() : lines[i].substr(a); };
     std::vector<size_t> opens, closes, inside; int depth = 0;
-    for(size_t i = 0; i < lines.size(); ++i) { std::string s = trimmed(i); if(s == "{") { opens.push_back(i); ++depth; } else if(s == "}" || s.rfind("} #", 0) == 0) { closes.push_back(i); --depth; }   // not "} = value": '}' is a legal key if(depth > 0) inside.push_back(i); }
+    for(size_t i = 0; i < lines.size(); ++i) { std::string s = trimmed(i); if(s == "{") { opens.push_back(i); ++depth; } else if(s == "}" || s.rfind("} #", 0) == 0) { closes.push_back(i); --depth; } /* not "} = value": '}' is a legal key */ if(depth > 0) inside.push_back(i); }
     int k = t.pick({3, 2, 2, 2, 2}); std::string kind; std::vector<std::string> out = lines;
     if(k == 0) { size_t cut = inside[(size_t)t.range(0, (int)inside.size() - 1)]; out.resize(cut + 1); kind = "truncate-inside-braces"; }
     else if(k == 1) { out.erase(out.begin() + (long)opens[(size_t)t.range(0, (int)opens.size() - 1)]); kind = "drop-open-brace"; }
